@@ -31,7 +31,9 @@ INLINE_GRAMMARS = {
     "builtins": 'w = { (ASCII_ALPHA | ASCII_DIGIT | "_")+ ~ EOI }\nh = { ASCII_HEX_DIGIT{2,4} ~ ASCII_ALPHANUMERIC* }\nn = { NEWLINE | ASCII_ALPHA_UPPER ~ ASCII_ALPHA_LOWER* }',
     "choice": 'k = { ("select" | "set" | ^"from" | \'a\'..\'f\' | "x" | LETTER)+ }\nm = _{ "a" | "b" | k }\nt = { #tg = m ~ (m | "!")* }',
     "stack": 'q = { PUSH("a"+ | "b") ~ ("-" ~ PEEK)* ~ (POP | DROP ~ "z") ~ PEEK_ALL ~ EOI }\nr = ${ PUSH_LITERAL("x") ~ (!POP ~ ANY)* ~ POP }',
-    "trivia": 'WHITESPACE = _{ " " | "\\t" }\nCOMMENT = _{ "#" ~ (!NEWLINE ~ ANY)* }\ns = { "a"{2,3} ~ b* ~ c? ~ EOI }\nb = @{ "b" ~ ("c" | "d")+ }\nc = ${ "e" ~ b }\nu = @{ (!("x" | "yz") ~ ANY)* ~ "x" }',
+    "trivia": 'WHITESPACE = _{ " " | "\\t" }\nCOMMENT = _{ "#" ~ (!NEWLINE ~ ANY)* }\ns = { "a"{2,3} ~ b* ~ c? ~ EOI }\nb = @{ "b" ~ ("c" | "d")+ }\nc = ${ "e" ~ b }\nu = @{ (!("x" | "yz") ~ ANY)* ~ "x" }\nv = { (!";" ~ ANY)* ~ ";" }',
+    "wsonly": 'WHITESPACE = _{ " " | "\\t" }\np = { "x" ~ "y" }\nt = @{ "x" ~ (" " | "\\t") ~ "y" }\nw = { (!";" ~ ANY)* ~ ";" }',
+    "plain": 'p = { (!";" ~ ANY)* ~ ";" ~ q? }\nq = { (" " | "\\t")+ }',
     "ci": 'c = { ^"ss" ~ "!" | ^"fi" ~ ANY? | ^"k" }\nd = @{ ^"Stra" ~ (^"sse" | "\\u{DF}e") }',
     "rec": 'e = { "(" ~ e ~ ")" | t+ }\nt = _{ \'0\'..\'9\' | "+" | e2 }\ne2 = !{ "[" ~ e? ~ "]" }\nWHITESPACE = _{ " " }',
 }
@@ -41,8 +43,10 @@ CALLS: dict[str, list[tuple[str, str]]] = {
     "builtins": [("w", "ab_9"), ("w", "ab-9"), ("h", "fF09zz"), ("h", "g"), ("n", "\r\n"), ("n", "Abc"), ("n", "abc"), ("w", "")],
     "choice": [("k", "selectsetFROMaxé"), ("k", "sel"), ("t", "ab!a"), ("t", "!"), ("k", "Q"), ("t", "selectb")],
     "stack": [("q", "aa-aa-aaaa"), ("q", "b-bzb"), ("q", "aa-a"), ("r", "abcx"), ("r", "x"), ("q", "")],
-    "trivia": [("s", "a a  a b c # x"), ("s", "aabcd bdd ebc"), ("s", "a"), ("u", "abyx"), ("u", "yz"), ("s", "aaa  ebd\t#"), ("b", "bcdx")],
+    "trivia": [("s", "a a  a b c # x"), ("s", "aabcd bdd ebc"), ("s", "a"), ("u", "abyx"), ("u", "yz"), ("s", "aaa  ebd\t#"), ("b", "bcdx"), ("v", "ab # ; x\n cd;"), ("v", "ab cd ;"), ("v", "# ;")],
     "ci": [("c", "SS!"), ("c", "\u00df!"), ("c", "\ufb01x"), ("c", "Fi"), ("c", "\u212a"), ("c", "K"), ("d", "STRASSE"), ("d", "stra\u00dfe"), ("d", "stra\u1e9ee")],
+    "wsonly": [("p", "x  y"), ("p", "xy"), ("t", "x y"), ("t", "x  y"), ("w", "ab cd ;"), ("w", " ; ")],
+    "plain": [("p", "ab;  "), ("p", "a b"), ("p", ";\t")],
     "rec": [("e", "((1+2))"), ("e", "(1"), ("e", "[ ( 1 ) ]+"), ("e", "[[]]"), ("e", ")")],
     "json": [("json", '{"a": [1, 2.5e3, true, null, "x\\n"], "b": {}}'), ("json", "[1, 2"), ("json", '{"a": tru}'), ("json", "[[[[1.5e3]]]]"), ("json", ""), ("json", ' [ "\\u00e9" ] ')],
     "calc": [("program", "1 + 2 * 3"), ("program", "-x! ^ 2 - (3 / y)"), ("program", "1 +"), ("program", "(1"), ("program", " 5! ")],
@@ -60,9 +64,18 @@ def grammar_text(gid: str) -> str:
         return fd.read()
 
 
+STEP_BUDGET = 20_000  # logical steps (checkpoints + rule entries) per parse; the pool's calls need < 400
+
+
 def build(gid: str, setting: str, kind: str):
     from pest import DEFAULT_OPTIMIZER_PASSES, Optimizer, Parser
 
+    from pv import monitor
+
+    # a history that makes a later call loop for ever must end as a result that differs from the pristine one,
+    # not as a watchdog: every parse runs under the logical step budget of pv.monitor
+    monitor.install()
+    monitor.set_budget(STEP_BUDGET)
     text = grammar_text(gid)
     if setting == "none":
         p = Parser.from_grammar(text, optimizer=None)
@@ -77,7 +90,9 @@ def build(gid: str, setting: str, kind: str):
         return p
     from pv.modes import load_generated
 
-    return load_generated(p.generate())
+    mod = load_generated(p.generate())
+    monitor.attach(mod)
+    return mod
 
 
 def observe(obj, rule: str, text: str, start: int):
